@@ -3,9 +3,11 @@ package main
 
 import (
 	"fmt"
+	"github.com/jcmturner/gokrb5/v8/zzverif/vclock"
 	"os"
 	"strconv"
 	"strings"
+	"time"
 
 	"verif/checks/c01"
 	"verif/checks/c02"
@@ -56,6 +58,9 @@ var checks = map[string]check{
 }
 
 func main() {
+	// The simulated machine is not on UTC (see vclock.Zone): times the library builds with time.Unix / time.Date(...,
+	// time.Local) or reads from the real clock come out in that zone too, as they do on most machines.
+	time.Local = vclock.Zone
 	if len(os.Args) < 2 {
 		fmt.Fprintln(os.Stderr, "usage: vcheck <ID> [quick|thorough]")
 		os.Exit(3)
